@@ -71,6 +71,7 @@ pub fn gen_step(s: &mut Pool2, rng: &mut Rng, ctx: &mut Ctx) -> Step {
                 amounts,
                 slippage: None,
                 receiver: None,
+                rev: false,
             },
             adv,
             fault: Fault::None,
@@ -113,7 +114,7 @@ pub fn gen_step(s: &mut Pool2, rng: &mut Rng, ctx: &mut Ctx) -> Step {
                 None
             };
             let receiver = if rng.chance(1, 5) { Some(rng.idx(s.cfg.n_users)) } else { None };
-            Op::Provide { amounts, slippage, receiver }
+            Op::Provide { amounts, slippage, receiver, rev: rng.chance(1, 3) }
         }
         1 if rng.chance(1, 8) => {
             let coin = rng.idx(4);
@@ -279,18 +280,21 @@ pub fn simplify(step: &Step) -> Vec<Step> {
         v
     };
     match &step.op {
-        Op::Provide { amounts, slippage, receiver } => {
+        Op::Provide { amounts, slippage, receiver, rev } => {
             if receiver.is_some() {
-                push(Op::Provide { amounts: *amounts, slippage: slippage.clone(), receiver: None }, step.adv, step.fault);
+                push(Op::Provide { amounts: *amounts, slippage: slippage.clone(), receiver: None, rev: *rev }, step.adv, step.fault);
             }
             if slippage.is_some() {
-                push(Op::Provide { amounts: *amounts, slippage: None, receiver: *receiver }, step.adv, step.fault);
+                push(Op::Provide { amounts: *amounts, slippage: None, receiver: *receiver, rev: *rev }, step.adv, step.fault);
+            }
+            if *rev {
+                push(Op::Provide { amounts: *amounts, slippage: slippage.clone(), receiver: *receiver, rev: false }, step.adv, step.fault);
             }
             for a in shr(amounts[0]) {
-                push(Op::Provide { amounts: [a, amounts[1]], slippage: slippage.clone(), receiver: *receiver }, step.adv, step.fault);
+                push(Op::Provide { amounts: [a, amounts[1]], slippage: slippage.clone(), receiver: *receiver, rev: *rev }, step.adv, step.fault);
             }
             for a in shr(amounts[1]) {
-                push(Op::Provide { amounts: [amounts[0], a], slippage: slippage.clone(), receiver: *receiver }, step.adv, step.fault);
+                push(Op::Provide { amounts: [amounts[0], a], slippage: slippage.clone(), receiver: *receiver, rev: *rev }, step.adv, step.fault);
             }
         }
         Op::Withdraw { lp } => {
